@@ -281,6 +281,33 @@ def signature_of(sample):
     return None
 
 
+ADM_STREAMS = {"c01", "c06", "c07", "c08", "c09", "c10", "c11", "c11cs", "c12", "c13adm", "c18adm", "c02", "c03", "c19"}
+
+
+def shrink_case(payload, kind, f):
+    """admission and pod streams: minimise the failing case (tools/shrink.py re-runs candidates through
+    `psaharness -replay` and coqc); adds shrunk_case / shrink_stats to the replay, never fails."""
+    try:
+        stream = f.get("stream")
+        case = f.get("case")
+        if kind != "propfail" or stream not in ADM_STREAMS or not isinstance(case, dict) or ("cfg_strings" not in case and "pod" not in case):
+            return
+        d = os.path.join(WORK, "shrink_%d" % os.getpid())
+        os.makedirs(d, exist_ok=True)
+        src, dst = os.path.join(d, "in.json"), os.path.join(d, "out.json")
+        json.dump(case, open(src, "w"), default=str)
+        subprocess.run([sys.executable, os.path.join(VERIF, "tools", "shrink.py"), stream, "propfail", src, dst, "60"],
+                       timeout=150, capture_output=True, env=dict(os.environ, **GOENV))
+        if os.path.exists(dst):
+            out = json.load(open(dst))
+            payload["shrunk_case"] = out.get("case")
+            payload["shrink_stats"] = out.get("stats")
+            payload["how_to_replay"] += "; shrunk_case is a minimised input on which the relation still fails (re-run it with: .build/psaharness %s -replay <file holding shrunk_case> -out <dir>, then coqc the case file)" % stream
+        shutil.rmtree(d, ignore_errors=True)
+    except Exception as e:  # noqa
+        payload["shrink_stats"] = {"error": str(e)}
+
+
 def write_replay(prop, kind, payload):
     d = os.path.join(VERIF, "replays", prop)
     os.makedirs(d, exist_ok=True)
@@ -419,6 +446,7 @@ def main():
                    "failing_case": f["case"], "all_failures": len(violations),
                    "how_to_replay": "%s/run %s quick (the case is regenerated from the seed %d by stream %s); the input and the implementation's observed output are in failing_case" % (VERIF, prop, seed, f.get("stream")),
                    "other_problems": problems[:5]}
+        shrink_case(payload, kind, f)
         path = write_replay(prop, kind, payload)
         out_lines.append("VIOLATION property=%s replay=%s" % (prop, path))
         exit_code = 1
